@@ -95,50 +95,56 @@ Proof.
   rewrite map_nth, seq_nth by exact H. reflexivity.
 Qed.
 
-Theorem cdb_make_wf recs :
-  (N.of_nat (length (cdb_make recs)) < M32)%N ->
+Lemma cdb_layout_wf recs hs ps raw body tb p0 :
+  hs = map (fun kv => std_hash (fst kv)) recs -> ps = rec_positions 2048 recs -> length raw = 256 ->
+  (forall t, t < 256 -> table_ok recs (N.of_nat t) (nth t raw [])) ->
+  body = concat (map ser_rec recs) -> tb = concat (map (gt hs ps) raw) -> p0 = (2048 + N.of_nat (length body))%N ->
+  (N.of_nat (length (header p0 raw ++ body ++ tb)) < M32)%N ->
   Forall (fun kv => Forall (fun b => (b < 256)%N) (fst kv) /\ Forall (fun b => (b < 256)%N) (snd kv)) recs ->
-  cdb_wf (cdb_make recs) recs.
+  cdb_wf (header p0 raw ++ body ++ tb) recs.
 Proof.
-  intros Hsmall Hb. unfold cdb_make in *.
-  set (body := concat (map ser_rec recs)) in *.
-  set (hs := map (fun kv => std_hash (fst kv)) recs) in *.
-  set (ps := rec_positions 2048 recs) in *.
-  set (raw := map (fun t => make_table hs (N.of_nat t)) (seq 0 256)) in *.
-  set (tb := concat (map (fun t => concat (map (ser_islot hs ps) t)) raw)) in *.
-  set (p0 := (2048 + N.of_nat (length body))%N) in *.
-  assert (RL : length raw = 256) by (unfold raw; rewrite map_length, seq_length; reflexivity).
-  assert (HL : length (header p0 raw) = 2048) by (rewrite header_length, RL; reflexivity).
+  intros Ehs Eps RL TOK Ebody Etb Ep0 Hsmall Hb.
+  assert (HL : N.of_nat (length (header p0 raw)) = 2048%N) by (rewrite header_length, RL; reflexivity).
   split; [exact Hsmall|]. split.
   { apply Forall_app. split; [apply header_bytes|]. apply Forall_app. split.
-    - apply Forall_concat. apply Forall_map. eapply Forall_impl; [|exact Hb]. intros kv [A B]. unfold ser_rec.
+    - rewrite Ebody. apply Forall_concat. apply Forall_map. eapply Forall_impl; [|exact Hb]. intros kv [A B]. unfold ser_rec.
       repeat (apply Forall_app; split); try apply le32_bytes; assumption.
-    - apply Forall_concat. apply Forall_map. apply Forall_forall. intros t _. apply Forall_concat. apply Forall_map.
+    - rewrite Etb. apply Forall_concat. apply Forall_map. apply Forall_forall. intros t _. apply Forall_concat. apply Forall_map.
       apply Forall_forall. intros [x|] _; cbn [ser_islot]; repeat (apply Forall_app; split); apply le32_bytes. }
   set (mk := fun u => ((p0 + N.of_nat (off (gt hs ps) raw u))%N, nth u raw [])).
-  exists ps, (map mk (seq 0 256)).
-  split; [apply rec_positions_length|]. split; [rewrite map_length, seq_length; reflexivity|]. split.
+  exists ps, (map mk (seq 0 256)). rewrite <- Ehs.
+  split; [rewrite Eps; apply rec_positions_length|]. split; [rewrite map_length, seq_length; reflexivity|]. split.
   - (* records *)
-    intros i Hi. unfold ps. rewrite rec_positions_nth by exact Hi. split; [lia|].
+    intros i Hi. rewrite Eps. rewrite rec_positions_nth by exact Hi. split; [lia|].
     replace (2048 + N.of_nat (off ser_rec recs i))%N with (N.of_nat (length (header p0 raw) + off ser_rec recs i)) by lia.
-    apply has_mid; [apply sub_concat_nth; exact Hi|apply off_le; exact Hi].
+    rewrite Ebody. apply has_mid; [apply sub_concat_nth; exact Hi|apply off_le; exact Hi].
   - (* tables *)
     intros t Ht.
     assert (NT : nth t (map mk (seq 0 256)) (0%N, []) = mk t) by (apply nth_map_seq; exact Ht).
     rewrite NT. unfold mk. cbn [fst snd]. split; [|split].
     + (* header entry *)
       pose proof (header_nth hs ps raw p0 t ltac:(lia)) as HN.
-      split; [rewrite !app_length, !le32_length, HL; lia|].
+      split; [rewrite !app_length, !le32_length; lia|].
       rewrite app_length, !le32_length. change (4 + 4) with 8.
       replace (N.to_nat (8 * N.of_nat t)) with (8 * t) by lia.
       rewrite sub_app_l by lia. exact HN.
     + (* table bytes *)
       replace (p0 + N.of_nat (off (gt hs ps) raw t))%N with (N.of_nat (length (header p0 raw ++ body) + off (gt hs ps) raw t))
-        by (rewrite app_length, HL; unfold p0; lia).
-      fold hs. rewrite app_assoc. rewrite <- (app_nil_r tb). fold (gt hs ps (nth t raw [])).
+        by (rewrite app_length; lia).
+      rewrite app_assoc. rewrite <- (app_nil_r tb). rewrite Etb. fold (gt hs ps (nth t raw [])).
       apply has_mid.
       * apply (sub_concat_nth (gt hs ps) []). lia.
       * apply (off_le (gt hs ps) []). lia.
     + (* table contents *)
-      unfold raw. rewrite nth_map_seq by exact Ht. apply make_table_ok.
+      apply TOK. exact Ht.
+Qed.
+
+Theorem cdb_make_wf recs :
+  (N.of_nat (length (cdb_make recs)) < M32)%N ->
+  Forall (fun kv => Forall (fun b => (b < 256)%N) (fst kv) /\ Forall (fun b => (b < 256)%N) (snd kv)) recs ->
+  cdb_wf (cdb_make recs) recs.
+Proof.
+  intros Hsmall Hb. unfold cdb_make in *.
+  eapply cdb_layout_wf; try reflexivity; try assumption.
+  intros t Ht. rewrite nth_map_seq by exact Ht. apply make_table_ok.
 Qed.
